@@ -418,16 +418,16 @@ bool Instance::configure_tx_txin() {
             }
             // pushval = HASH160(scriptSig)
             hashsrc.do_hash160();
-            if (uint160(hashsrc.data_value()) != uint160(pushval)) {
+            if (hashsrc.data_value() != pushval) { // pushval need not be 20 bytes long
                 fprintf(stderr, "scriptSig hash does not match the script pub key hash:\n"
                     "- scriptSig: %s\n"
                     "- scriptSig hash: %s\n"
                     "- script pub key: %s\n"
                     "- script pub key given hash: %s\n",
                     HexStr(scriptSig).c_str(),
-                    uint160(hashsrc.data).ToString().c_str(),
+                    HexStr(hashsrc.data).c_str(),
                     HexStr(scriptPubKey).c_str(),
-                    uint160(pushval).ToString().c_str()
+                    HexStr(pushval).c_str()
                 );
                 return false;
             }
